@@ -236,6 +236,12 @@ def oracle_c10(case):
                 fails.append(("c10-namespace-mismatch", i, "`%s` finds document %s, which tenant %s last wrote with namespace `%s`: %s" % (
                     l, m.group(1), t, wrote[(t, m.group(1))], r)))
                 break
+        elif op == "bq" and r.startswith("ok ") and f.get("ns", "-") != "-":
+            hit = next((x for x in re.findall(r"(?:res=|;)(\d+)~1~", r) if (t, x) in wrote and wrote[(t, x)] != f["ns"]), None)
+            if hit:
+                fails.append(("c10-namespace-mismatch", i, "`%s` finds document %s, which tenant %s last wrote with namespace `%s`: %s" % (
+                    l, hit, t, wrote[(t, hit)], r[:300])))
+                break
     # a client filter must not be evaluated against the server-owned keys (they "cannot be seen"): where the model - which
     # agrees with the server on this answer - says a client blind to those keys would have got another answer
     for i, (l, r, m) in enumerate(zip(raw, impl, case.get("model", []))):
